@@ -862,7 +862,7 @@ pub fn gen_c09(rng: &mut Rng, tier: &str, out: &mut Out) {
         let text = domain_mapping(rng, &cfg);
         map_op(out, true, &text);
         out.d("WRITE".into());
-        let bytes = crate::proto::cur::write_cache(&text);
+        let bytes = crate::proto::cur::write_cache_safe(&text);
         out.d(format!("BUF {}", hx(&bytes)));
         out.d("BTEST".into());
         if fmt_enabled() {
@@ -873,7 +873,7 @@ pub fn gen_c09(rng: &mut Rng, tier: &str, out: &mut Out) {
         let dom = is_representable(&text);
         map_op(out, dom, &text);
         out.t(dom, "WRITE".into());
-        let bytes = crate::proto::cur::write_cache(&text);
+        let bytes = crate::proto::cur::write_cache_safe(&text);
         out.t(dom, format!("BUF {}", hx(&bytes)));
         out.t(dom, "BTEST".into());
         if fmt_enabled() {
@@ -923,7 +923,7 @@ pub fn gen_c10(rng: &mut Rng, tier: &str, out: &mut Out) {
         let dom = is_representable(&text);
         let u = universe(&text);
         for writer in 0..2 {
-            let bytes = if writer == 0 { crate::proto::pin::write_cache(&text) } else { crate::proto::cur::write_cache(&text) };
+            let bytes = if writer == 0 { crate::proto::pin::write_cache_safe(&text) } else { crate::proto::cur::write_cache_safe(&text) };
             out.t(dom, format!("BUF {}", hx(&bytes)));
             out.count(if writer == 0 { "pinned_written" } else { "current_written" });
             buf_queries(out, rng, dom, &u, 4, true);
@@ -952,7 +952,7 @@ pub fn gen_c11(rng: &mut Rng, tier: &str, out: &mut Out) {
         cfg.max_members = 4;
         let text = if i == 0 { Vec::new() } else { domain_mapping(rng, &cfg) };
         let u = universe(&text);
-        let bytes = crate::proto::cur::write_cache(&text);
+        let bytes = crate::proto::cur::write_cache_safe(&text);
         out.d(format!("BUF {}", hx(&bytes)));
         buf_queries(out, rng, true, &u, 1, false);
         // prefixes: all for small files, sampled + section boundaries for large ones
@@ -1102,7 +1102,7 @@ pub fn gen_c12(rng: &mut Rng, tier: &str, out: &mut Out) {
         cfg.min_classes = 1;
         let text = domain_mapping(rng, &cfg);
         let u = universe(&text);
-        let bytes = crate::proto::cur::write_cache(&text);
+        let bytes = crate::proto::cur::write_cache_safe(&text);
         for b in corrupt_buffers(rng, &bytes, if th { 24 } else { 10 }) {
             out.d(format!("BUF {}", hx(&b)));
             out.count("corrupt_buffers");
@@ -1115,7 +1115,7 @@ pub fn gen_c12(rng: &mut Rng, tier: &str, out: &mut Out) {
     }
     // F5 anchor: endline truncated to 0 with a real original range
     let text = b"o.A -> a:\n    5:4294967296:void x():1:3 -> m\n";
-    let bytes = crate::proto::cur::write_cache(text);
+    let bytes = crate::proto::cur::write_cache_safe(text);
     out.d(format!("BUF {}", hx(&bytes)));
     for l in [0usize, 2, 5, 7, usize::MAX] {
         out.d(format!("BFRL {} {} {} -", hxs("a"), hxs("m"), l));
@@ -1195,7 +1195,7 @@ pub fn gen_c15(rng: &mut Rng, tier: &str, out: &mut Out) {
         cfg.max_classes = 4;
         let g = gen_mapping(rng, &cfg);
         map_op(out, true, &g.text);
-        let len = crate::proto::cur::write_cache(&g.text).len();
+        let len = crate::proto::cur::write_cache_safe(&g.text).len();
         for k in 1..=16usize {
             if th || k <= 4 || rng.pct(25) {
                 out.d(format!("SINK {} - -", k));
